@@ -98,6 +98,7 @@ inline void lsm_protect(bool on) {
   int prot = on ? PROT_READ : (PROT_READ | PROT_WRITE);
   if (I.stat_len) { uintptr_t lo = (uintptr_t)I.stat & ~(uintptr_t)4095; size_t len = ((uintptr_t)I.stat + I.stat_len - lo + 4095) & ~(size_t)4095; if (mprotect((void*)lo, len, prot)) machinery_error("mprotect(static) failed"); }
   size_t used = (at.arena_used + 4095) & ~(size_t)4095, root = root_seal().bytes;
+  if (on) at.arena_used = used;  // whatever the protected call allocates starts on a fresh (unprotected) page
   if (used > root && mprotect(I.arena + root, used - root, prot)) machinery_error("mprotect(arena) failed");
 }
 // describes where a trapped address lies
